@@ -160,6 +160,8 @@ fn w_vec1(x: u8) -> (r: Vec<u8>) ensures r@ == seq![x] { vec![x] }
 
 
 def run(run, replay=None):
+    from units.C15 import cex as _cex
+    run.fallbacks.append(("marshal writer/reader (boundary values, malformed inputs)", lambda: _cex.fallback(run)))
     unit = build(run)
     res = unit.run(rlimit=60)
     run.add_verus(unit, res, cex_finder=lambda f: find_cex(run, f))
